@@ -109,6 +109,13 @@ func (s *Scenario) Explore(bound, maxSchedules int) *Report {
 			if k := strings.Index(obj, "@"); k >= 0 {
 				obj = obj[:k]
 			}
+			if e.AtomicGlobals[obj] {
+				// the variable contains words the program uses as synchronisation objects (claim flags of a ring of slots,
+				// counters): the monitor sees a package-level variable as ONE object, and taking the address of a slot before
+				// claiming it counts as a read of all of it. At that granularity a claim protocol cannot be judged; the
+				// word-granular race detector pass and the result oracles cover it
+				continue
+			}
 			add(e, "race:"+obj, "data race (happens-before monitor): "+r.String())
 			flags = append(flags, "race")
 		}
@@ -121,7 +128,7 @@ func (s *Scenario) Explore(bound, maxSchedules int) *Report {
 			flags = append(flags, "rowrite")
 		}
 		for _, g := range e.GlobalsChanged {
-			modelled := false
+			modelled := e.AtomicGlobals[g]
 			for _, a := range e.objs[g] {
 				if a.write {
 					modelled = true
